@@ -191,6 +191,26 @@ func TestVerifC03(t *testing.T) {
 				}
 			}
 		}
+		// path values with characters that are special in regular expressions (all admitted by the Gateway API pattern for
+		// path values) on rules that rewrite or redirect by prefix: the path ends up inside a rewrite regex
+		if r.Chance(1, 4) {
+			for ri := range c.Routes {
+				for ui := range c.Routes[ri].Rules {
+					ru := &c.Routes[ri].Rules[ui]
+					prefixMod := false
+					for _, f := range ru.Filters {
+						if f.Path != nil && !f.Path.Full {
+							prefixMod = true
+						}
+					}
+					if prefixMod && !c.Routes[ri].GRPC {
+						for mi := range ru.Matches {
+							ru.Matches[mi].Path = []string{"/a(b", "/a)b", "/x*y", "/p+q", "/d.e", "/q$r", "/it's", "/a(b)/c"}[r.Intn(8)]
+						}
+					}
+				}
+			}
+		}
 		var extra []client.Object
 		var tags []string
 		withParams := false
